@@ -94,6 +94,8 @@ impl HyperLink {
 
 impl TextPane for Layer {
     fn get_char(&self, pos: impl Into<Position>) -> AttributedChar {
+        #[cfg(icy_engine_verif)]
+        crate::verif::tick(1);
         let pos = pos.into();
         if pos.x < 0 || pos.y < 0 || pos.x >= self.get_width() || pos.y >= self.get_height() {
             return AttributedChar::invisible().with_font_page(self.default_font_page);
@@ -206,6 +208,8 @@ impl Layer {
     }
 
     pub fn set_char(&mut self, pos: impl Into<Position>, attributed_char: AttributedChar) {
+        #[cfg(icy_engine_verif)]
+        crate::verif::tick(1);
         let pos = pos.into();
         if pos.x < 0 || pos.y < 0 || pos.x >= self.get_width() || pos.y >= self.get_height() {
             return;
@@ -236,6 +240,8 @@ impl Layer {
     ///
     /// Panics if .
     pub fn remove_line(&mut self, index: i32) {
+        #[cfg(icy_engine_verif)]
+        crate::verif::tick(1);
         if self.properties.is_locked || !self.properties.is_visible {
             return;
         }
@@ -249,6 +255,8 @@ impl Layer {
     ///
     /// Panics if .
     pub fn insert_line(&mut self, index: i32, line: Line) {
+        #[cfg(icy_engine_verif)]
+        crate::verif::tick(1);
         if self.properties.is_locked || !self.properties.is_visible {
             return;
         }
